@@ -645,7 +645,7 @@ class Interp:
             res.append((Outcome(UNK, pushes, None, notes), e))
         return res
 
-    INTERP_METHODS = ("lower_type", "lower_out_type", "lower_callback_param", "is_ffi_safe", "lower_many_callback_params")
+    INTERP_METHODS = ("lower_type", "lower_out_type", "lower_callback_param", "is_ffi_safe", "ffi_safe_version", "lower_many_callback_params")
 
     def ev_mcall(self, n, env, depth):
         m = n["m"]
@@ -696,6 +696,9 @@ class Interp:
                         out_vals = [(E(recv[1], recv[2], co.val), co.pushes, co.notes) for co, _ in couts if not co.ctl]
                         if not out_vals:
                             out_vals = [(E(recv[1], recv[2], UNK), (), ())]
+                    elif args and args[0][0] == "enum" and not args[0][3]:
+                        # mapping with a tuple-variant constructor used as a function: Ok(x).map(Variant) = Ok(Variant(x))
+                        out_vals = [(E(recv[1], recv[2], E(args[0][1], args[0][2], recv[3][0] if recv[3] else UNK)), (), ())]
                     else:
                         out_vals = [(E(recv[1], recv[2], UNK), (), ())]
                 else:
@@ -712,9 +715,9 @@ class Interp:
                 out_vals = [(("support",), (), ())]
             elif m in self.INTERP_METHODS:
                 fn_map = {"lower_type": "hir::lowering::LoweringContext::lower_type", "lower_out_type": "hir::lowering::LoweringContext::lower_out_type",
-                          "lower_callback_param": "hir::lowering::LoweringContext::lower_callback_param", "is_ffi_safe": "ast::types::TypeName::is_ffi_safe",
+                          "lower_callback_param": "hir::lowering::LoweringContext::lower_callback_param", "is_ffi_safe": "ast::types::TypeName::is_ffi_safe", "ffi_safe_version": "ast::types::TypeName::ffi_safe_version",
                           "lower_many_callback_params": "hir::lowering::LoweringContext::lower_many_callback_params"}
-                cargs = list(args) if m != "is_ffi_safe" else [recv]
+                cargs = list(args) if m not in ("is_ffi_safe", "ffi_safe_version") else [recv]
                 outs = self.call(fn_map[m], cargs, depth + 1)
                 out_vals = [(o.val, o.pushes, o.notes + (("panic:" + "/".join(o.notes),) if False else ())) if o.ctl != "panic" else None for o in outs]
                 for o in outs:
